@@ -16,6 +16,8 @@ for _fn in sorted(os.listdir(os.path.join(HERE, "claims"))):
         CLAIMS[_fn[:-5]] = json.load(open(os.path.join(HERE, "claims", _fn)))   # {"text":..., "ref":..., "note":...}
 
 NOT_APPLICABLE = {}
+# checks whose model is being adapted to a fix just made in /repo are held back (not claimed) until they are green again
+HOLD = set(filter(None, os.environ.get('HOLD', '').split(',')))
 
 def main():
     props = [json.loads(l) for l in open(os.path.join(VERIF, "properties.jsonl"))]
@@ -23,7 +25,7 @@ def main():
     na = []
     for p in props:
         pid = p["id"]
-        if pid in CLAIMS:
+        if pid in CLAIMS and pid not in HOLD:
             c = CLAIMS[pid]
             checks.append({
                 "property_id": pid,
